@@ -241,6 +241,10 @@ def e2e(case):
             dirs = [(wd - 1.2) % 360.0, (wd - 0.8) % 360.0, (wd - 0.4) % 360.0, wd]
         raw2 = json_copy(raw)
         raw2["met"]["wind_dir"] = dirs
+        if forcing == "z0" and not slow and case["idx"] % 2 == 0:
+            # a light-wind record inside the sweep (0.42 m/s has a direction like any other wind)
+            raw2["met"]["wind_speed"] = [ws if k_ != 1 else 0.42 for k_ in range(len(dirs))]
+            desc["sweep_speeds"] = raw2["met"]["wind_speed"]
         cached = case["idx"] % 12 in (0, 9)
         if cached:   # with the result cache switched on, and run twice: the second series is served from the entries of the first
             raw2["parallel"] = {"use_cache": True}
